@@ -11,6 +11,7 @@ import (
 	"os"
 	"path/filepath"
 	"regexp"
+	"runtime"
 	"runtime/debug"
 	"runtime/metrics"
 	"runtime/pprof"
@@ -761,6 +762,46 @@ func stalledSites(dump string, votes map[string]int) {
 	}
 }
 
+// biggestHolder reads the heap profile (allocations of 512 KiB and more are always
+// sampled) and returns the innermost zoekt frame of the allocation site that holds
+// the most live memory, "" when nothing holds 16 MiB.
+func biggestHolder() string {
+	runtime.GC() // the profile is as of the last completed cycle
+	n, _ := runtime.MemProfile(nil, true)
+	recs := make([]runtime.MemProfileRecord, n+100)
+	n, ok := runtime.MemProfile(recs, true)
+	if !ok {
+		return ""
+	}
+	held := map[string]int64{}
+	for _, r := range recs[:n] {
+		if r.InUseBytes() < 1<<20 {
+			continue
+		}
+		frames := runtime.CallersFrames(r.Stack())
+		for {
+			f, more := frames.Next()
+			if fn, ok := strings.CutPrefix(f.Function, "github.com/sourcegraph/zoekt/"); ok && !strings.Contains(fn, "verifkit") && !strings.Contains(fn, "verifcheck") {
+				if i := strings.Index(fn, "[...]"); i >= 0 {
+					fn = fn[:i]
+				}
+				held[fn] += r.InUseBytes()
+				break
+			}
+			if !more {
+				break
+			}
+		}
+	}
+	site, most := "", int64(16<<20)
+	for f, b := range held {
+		if b > most || (b == most && f < site) {
+			site, most = f, b
+		}
+	}
+	return site
+}
+
 // giveUp dumps the goroutines (the parent takes the stalled zoekt frame from the
 // C11-SITE line) and ends the child with a status of its own.
 func (c *child) giveUp(lc loggedCase, status int, why string) {
@@ -780,6 +821,13 @@ func (c *child) giveUp(lc loggedCase, status int, why string) {
 	for f, n := range votes {
 		if n > best || (n == best && f < site) {
 			site, best = f, n
+		}
+	}
+	if status == exitRunaway {
+		// who holds the memory says more than who happens to be running: the site is
+		// the zoekt frame of the allocation that holds most of the live heap
+		if f := biggestHolder(); f != "" {
+			site = f
 		}
 	}
 	fmt.Fprintf(os.Stderr, "\nC11-GIVE-UP case %d %s phase %s %s: %s\nC11-SITE %s\n%s\n", lc.I, lc.ID, lc.Phase, lc.Op, why, site, clip(first, 20000))
